@@ -77,6 +77,17 @@ fn run_case(case: &J) -> J {
             "add_memory" => {
                 module.add_local_memory_with_tag(wasmparser::MemoryType { memory64: false, shared: false, initial: 2, maximum: Some(3), page_size_log2: None }, tag.clone());
             }
+            "add_import_memory" => {
+                module.add_import_memory_with_tag("added".to_string(), format!("m{}", n), wasmparser::MemoryType { memory64: false, shared: false, initial: 1, maximum: None, page_size_log2: None }, tag.clone());
+            }
+            "add_data_active" => {
+                // an active segment for the parsed module's own memory (ID 0 when the call is made)
+                module.add_data(DataSegment {
+                    kind: DataSegmentKind::Active { memory_index: 0, offset_expr: InitExpr::new(vec![InitInstr::Value(Value::I32(16))]) },
+                    data: vec![3],
+                    tag: if tagb.is_empty() { None } else { Some(tag.clone()) },
+                });
+            }
             "add_data" => {
                 module.add_data(DataSegment { kind: DataSegmentKind::Passive, data: vec![1, 2], tag: if tagb.is_empty() { None } else { Some(tag.clone()) } });
             }
